@@ -261,6 +261,10 @@ func (s *Sim) allDone() bool {
 // quiescent, or a cap is hit; then tears the run down. It must be called from
 // the bubble's root goroutine after the tasks were started with Go.
 func (s *Sim) Run() {
+	s.mu.Lock()
+	s.ended = false // a scenario may run several phases in one bubble
+	s.Quiescent = false
+	s.mu.Unlock()
 	done := make(chan struct{})
 	go func() {
 		raceOff() // scheduler: its hand-offs must not order the tasks for the race detector
